@@ -69,6 +69,17 @@ func VfC06Inbound() {
 	if err != nil {
 		vf.Stop()
 	}
+	// the connection cache is empty, or holds one arbitrary entry (any key, any status) from earlier traffic
+	cached := vf.Bool()
+	var ck connStateKey
+	var cst connStatus
+	if cached {
+		ck = connStateKey{localIP: vfMycoAddr(), remoteIP: vfMycoAddr(), protocol: vf.U8(), localPort: vf.U16(), remotePort: vf.U16()}
+		cst = connStatus(vf.U8() % 6)
+		e := &connStateEntry{notify: make(chan connStatus)}
+		e.status.Store(uint32(cst))
+		r.connStates[ck] = e
+	}
 
 	// the frameHandler loop body
 	err = r.handleFrame(vfW, f)
@@ -94,7 +105,18 @@ func VfC06Inbound() {
 		if proto == 6 || proto == 17 {
 			port = uint16(pd[42])<<8 | uint16(pd[43])
 		}
-		vf.Assert(proto == svcProto && port == svcPort && (svcPublic || peer == svcAllowed), "delivered-against-policy")
+		var sport uint16
+		if proto == 6 || proto == 17 {
+			sport = uint16(pd[40])<<8 | uint16(pd[41])
+		}
+		hit := cached && ck == connStateKey{localIP: own, remoteIP: peer, protocol: proto, localPort: port, remotePort: sport}
+		if hit {
+			// an existing connection entry decides (stateful): only an allowed one lets the packet through
+			vf.Assert(cst == connStatusAllowed, "delivered-on-non-allowed-connection-state")
+			vf.Reach("delivered-by-connection-state")
+		} else {
+			vf.Assert(proto == svcProto && port == svcPort && (svcPublic || peer == svcAllowed), "delivered-against-policy")
+		}
 		vf.Reach("delivered")
 	} else {
 		vf.Reach("dropped")
